@@ -155,6 +155,9 @@ def runTwice (zone tiS toS lineS extS firstS secondS : String) : Result :=
             else if s2.panic then some "panic"
             else if !s2.ok then some "emitted-line-rejected-by-its-own-template"
             else some "not-a-fixed-point"
+    -- when the model cannot compute the first pass at all (a stdlib answer outside its domain, e.g. an
+    -- instant beyond ±2^62 s) neither the comparison nor the attribution of a deviation is available
+    if ms1 == "err EXT" then ⟨"X", "model abstains on the first pass"⟩ else
     match d, p with
     | false, none => ⟨"S", ""⟩
     | true, none => if abstain then ⟨"X", "model abstains"⟩ else
